@@ -43,12 +43,12 @@ type adef struct {
 var schema = map[string]map[int]adef{
 	"PDR": {4: {"PRECEDENCE", kU32, "", false}, 5: {"PDI", kNest, "PDI", false}, 6: {"OUTER_HEADER_REMOVAL", kU8, "", false},
 		7: {"FAR_ID", kU32, "", false}, 9: {"UNIX_SOCKET_PATH", kIgnore, "", false}, 10: {"QER_ID", kU32, "", true}, 12: {"URR_ID", kU32, "", true}},
-	"PDI": {1: {"UE_ADDR_IPV4", kIP4, "", false}, 2: {"F_TEID", kNest, "FTEID", false}, 3: {"SDF_FILTER", kNest, "SDF", true}, 4: {"SRC_INTF", kU8, "", false}},
+	"PDI":   {1: {"UE_ADDR_IPV4", kIP4, "", false}, 2: {"F_TEID", kNest, "FTEID", false}, 3: {"SDF_FILTER", kNest, "SDF", true}, 4: {"SRC_INTF", kU8, "", false}},
 	"FTEID": {1: {"I_TEID", kU32, "", false}, 2: {"GTPU_ADDR_IPV4", kIP4, "", false}},
 	"SDF":   {1: {"FLOW_DESCRIPTION", kFD, "", false}, 2: {"TOS_TRAFFIC_CLASS", kU16, "", false}, 3: {"SPI", kU32, "", false}, 4: {"FLOW_LABEL", kU32, "", false}, 5: {"SDF_FILTER_ID", kU32, "", false}},
-	"FAR": {4: {"APPLY_ACTION", kU16, "", false}, 5: {"FORWARDING_PARAMETER", kNest, "FP", false}, 8: {"BAR_ID", kU8, "", false}},
-	"FP":  {1: {"OUTER_HEADER_CREATION", kNest, "OHC", false}, 2: {"FORWARDING_POLICY", kStr, "", false}, 3: {"PFCPSM_REQ_FLAGS", kU8, "", false}},
-	"OHC": {1: {"DESCRIPTION", kU16, "", false}, 2: {"O_TEID", kU32, "", false}, 3: {"PEER_ADDR_IPV4", kIP4, "", false}, 4: {"PORT", kU16, "", false}},
+	"FAR":   {4: {"APPLY_ACTION", kU16, "", false}, 5: {"FORWARDING_PARAMETER", kNest, "FP", false}, 8: {"BAR_ID", kU8, "", false}},
+	"FP":    {1: {"OUTER_HEADER_CREATION", kNest, "OHC", false}, 2: {"FORWARDING_POLICY", kStr, "", false}, 3: {"PFCPSM_REQ_FLAGS", kU8, "", false}},
+	"OHC":   {1: {"DESCRIPTION", kU16, "", false}, 2: {"O_TEID", kU32, "", false}, 3: {"PEER_ADDR_IPV4", kIP4, "", false}, 4: {"PORT", kU16, "", false}},
 	"QER": {4: {"GATE", kU8, "", false}, 5: {"MBR", kRate, "", false}, 6: {"GBR", kRate, "", false}, 7: {"CORR_ID", kU32, "", false},
 		8: {"RQI", kU8, "", false}, 9: {"QFI", kU8, "", false}, 10: {"PPI", kU8, "", false}},
 	"URR": {4: {"MEASUREMENT_METHOD", kU8, "", false}, 5: {"REPORTING_TRIGGER", kU32, "", false}, 6: {"MEASUREMENT_PERIOD", kIgnore, "", false},
